@@ -57,6 +57,12 @@ func genC13(t *rapid.T) c13Case {
 				u.Scopes = append(u.Scopes, fmt.Sprintf("s%d", s))
 			}
 		}
+		// the order in which a user lists its scopes need not be the order of the secret configurations
+		if len(u.Scopes) > 1 && rapid.Bool().Draw(t, "reverse_scopes") {
+			for a, z := 0, len(u.Scopes)-1; a < z; a, z = a+1, z-1 {
+				u.Scopes[a], u.Scopes[z] = u.Scopes[z], u.Scopes[a]
+			}
+		}
 		if rapid.IntRange(0, 5).Draw(t, "hasauth") != 0 {
 			u.Authenticator = cfggen.BcryptAuth(rapid.SampledFrom(c13Passwords).Draw(t, "pw"))
 		}
